@@ -339,8 +339,11 @@ class InitialConcentrationNormalized(Contract):
         n = case["n"]
         names = comp_names(n)
         vals = [S.real(f"j_{i}") for i in range(n)]
+        # the property speaks of every non-negative j; normalising needs a non-zero total of the part that is normalised
+        # (all of it zero is 0/0 in the code as in the definition: outside the precondition, DESIGN §6 observation (s))
         for v in vals:
-            S.require(L.gt(v, 0), "initial concentrations positive")
+            S.require(L.ge(v, 0), "initial concentrations non-negative")
+        S.require(L.gt(L.sum([vals[i] for i in range(n) if i not in case["excluded"]]), 0), "normalised part has a positive total")
         pars = [Parameter(label=f"j.{i+1}", value=v) for i, v in enumerate(vals)]
         ic = InitialConcentration(label="ic", compartments=names, parameters=pars, exclude_from_normalize=[names[i] for i in case["excluded"]])
         return {"ic": ic, "vals": vals, "pars": pars}
